@@ -238,6 +238,9 @@ def judge (c : Case) : String :=
   -- know the id): the scan fails on a healthy cluster, or — for a close request — the lease stays
   if c.replies.any (fun r => r == Reply.err "misrouted") then
     s!"SPEC key=scanner-request-misrouted-{dir}-{mode} trace={String.intercalate ";" (c.trace.map reqStr)}" else
+  -- (a3) a request of a scan built with a priority went out without it (C05: "the priority")
+  if c.replies.any (fun r => r == Reply.err "prioritylost") then
+    s!"SPEC key=scan-request-priority-lost-{dir}-{mode} trace={String.intercalate ";" (c.trace.map reqStr)}" else
   -- (b) an error or end-of-scan is reported once, EOF from then on
   let fromErr : List Item := its.dropWhile (fun it => !hasErr it)
   if (fromErr.drop 1).any (fun it => it != eofItem) then
